@@ -170,6 +170,18 @@ CLAIMED = {
              "signed bit tests are covered by execution only.",
         technique="Coq proof by induction over condition trees + execution of real generated bytecode in a kernel-validated ISA model",
         ref="7/C03"),
+    "C07": dict(
+        text="Theorems C07_read (for every format BHIQbhiq, every byte order and every byte content: load + byte swap + sign extension deliver struct.unpack's "
+             "value, reduced to the destination), C07_write (for every value: struct.pack's bytes are stored at [p, p+n), no other packet byte and not the "
+             "length changes), C07_roundtrip, C07_guard / C07_guard_read / C07_guard_write (the body runs iff the packet is longer than the minimum size, and "
+             "then every access inside the guarded size is inside the packet). The model Gen/Packet.v composes the instruction semantics of Ebpf/Isa.v. Tie: "
+             "the REAL generator's XDP code for random programs (reads, constant / variable writes, updates, in-place additions, overlapping variables) runs in "
+             "the kernel-validated Coq ISA model on packets of every length around the guard; final packet and locals must equal the model's (all cases) "
+             "and struct.pack/unpack's (oracle); an access outside the packet faults.",
+        note=TB + "Partial: register allocation / instruction emission are not modelled (tie by execution, sampled); packet array accessors pB/pH/pI/pQ with "
+             "register offsets are not exercised.",
+        technique="Coq proof about byte-level load/store/guard composition + execution of real generated XDP code in a kernel-validated ISA model",
+        ref="7/C07"),
 }
 
 REASONS_NOT_YET = "no check built yet in this round (planned, see DESIGN.md section 7); nothing is claimed for it"
